@@ -105,15 +105,15 @@ pub fn run(ctx: &Ctx) -> Outcome {
         let base = determinism_check(scn, &Abort::None);
         let mut cases: Vec<(Plan, Abort)> = aborts_for(base.n_sends, &["cut", "reset", "cancel"]).into_iter().map(|a| (vec![], a)).collect();
         {
-            // one extra deviation before the abort (quick: a drop before every cut; thorough: drop / dup /
-            // delay before every cut, RESET and cancellation)
-            let fates: Vec<Fate> = if ctx.tier == Tier::Thorough { vec![Fate::Drop, Fate::Dup, Fate::Delay(300_000)] } else { vec![Fate::Drop] };
+            // one extra deviation (drop / dup / delay) before
+            // every cut, RESET and cancellation; thorough: two
+            let fates: Vec<Fate> = vec![Fate::Drop, Fate::Dup, Fate::Delay(300_000)];
             for i in 2..base.n_sends {
                 for fate in &fates {
                     let l1 = crate::duo::scenario::run(scn, &[(i, *fate)], &Abort::None);
                     for k in (i + 1)..l1.n_sends {
                         cases.push((vec![(i, *fate)], Abort::CutAfter(k)));
-                        if ctx.tier == Tier::Thorough {
+                        {
                             for side in [true, false] {
                                 cases.push((vec![(i, *fate)], Abort::ResetTo(k, side)));
                                 cases.push((vec![(i, *fate)], Abort::CancelAt(k, side)));
@@ -125,7 +125,7 @@ pub fn run(ctx: &Ctx) -> Outcome {
         }
         if ctx.tier == Tier::Thorough {
             // two earlier deviations (drop / 300 ms delay) before every cut
-            let two = [Fate::Drop, Fate::Delay(300_000)];
+            let two = [Fate::Drop, Fate::Dup, Fate::Delay(300_000)];
             let firsts: Vec<(usize, Fate, usize)> = (2..base.n_sends).flat_map(|i| two.iter().map(move |f| (i, *f))).collect::<Vec<_>>().par_iter().map(|(i, f)| (*i, *f, crate::duo::scenario::run(scn, &[(*i, *f)], &Abort::None).n_sends)).collect();
             let seconds: Vec<(Plan, usize)> = firsts
                 .par_iter()
@@ -145,6 +145,10 @@ pub fn run(ctx: &Ctx) -> Outcome {
                 let j = plan[1].0;
                 for k in (j + 1)..n2 {
                     cases.push((plan.clone(), Abort::CutAfter(k)));
+                    for side in [true, false] {
+                        cases.push((plan.clone(), Abort::ResetTo(k, side)));
+                        cases.push((plan.clone(), Abort::CancelAt(k, side)));
+                    }
                 }
             }
         }
@@ -170,7 +174,7 @@ pub fn run(ctx: &Ctx) -> Outcome {
             }
         }
         p.distinct_outcomes = classes.len() as u64;
-        p.bound = format!("every send index k of the run ({} sends) x {{network cut, RESET to either side, cancel of either socket}}{}", base.n_sends, if ctx.tier == Tier::Thorough { " + one earlier drop/dup/delay before every abort point + two earlier drops/delays before every cut" } else { " + one earlier drop before every cut point" });
+        p.bound = format!("every send index k of the run ({} sends) x {{network cut, RESET to either side, cancel of either socket}}{}", base.n_sends, if ctx.tier == Tier::Thorough { " + one earlier drop/dup/delay before every abort point + two earlier drops/dups/delays before every abort point" } else { " + one earlier drop/dup/delay before every abort point" });
         p.extra.insert("outcome_classes".into(), json!(classes));
         p.samples.push(json!({"scenario": scn.name, "abort": {"CutAfter": base.n_sends / 2}}));
         p.samples.push(json!({"scenario": scn.name, "abort": {"ResetTo": [3, true]}}));
